@@ -31,7 +31,8 @@ import (
 //	                                       same process and Context; the harness waits until it has handled Started
 //	       ["hold",k,c,m]                  with a gate closed: go on when handle k is done (it should not be), or when the
 //	                                       inbox of the stopping actor c holds m envelopes (the ancestor stopped through
-//	                                       k has reached c and waits for it), or after a long second
+//	                                       k has reached c and waits for it), or after a long second; an optional fifth
+//	                                       element: then stay put for that many more milliseconds
 //
 // The children listed in the tree are spawned by the FIRST incarnation of a node only, so that a restart cannot
 // mask lost children by spawning them again under the same ids.  "crash" is a panic with the budget used up.
@@ -590,6 +591,14 @@ steps:
 					break hold
 				}
 				time.Sleep(100 * time.Microsecond)
+			}
+			if len(st) > 4 {
+				// linger: the ancestor stays blocked on its stopping child for this long (unless its
+				// handle is done, which it should not be)
+				select {
+				case <-h.seen:
+				case <-time.After(time.Duration(num(st[4])) * time.Millisecond):
+				}
 			}
 		case "spawn":
 			cid := num(st[2])
